@@ -131,6 +131,7 @@ def run(ctx):
     ctx.coq_props()
 
     pred, pmeta, pred2, p2meta, acc, ameta, encs, emeta = [], [], [], [], [], [], [], []
+    shared = {}
     seen_acc = set()
     for vals, s, tag in gen_vectors(ctx):
         code = coder(vals, s)
@@ -255,6 +256,25 @@ def run(ctx):
                     if [c == -1 for c in tr] != [c == 0 for c in ycodes] or inv_codes != ycodes:
                         ctx.violation("label_encoder", "roundtrip", f"transform={tr}", {"vals": repr(vals), "sentinel": repr(s), "dtype": name, "classes": repr(classes)},
                                       what="inverse_transform(transform(y)) != y or missing labels not mapped to -1")
+                    # a re-used encoder object (one per sentinel / dtype, re-fitted on every array that comes by, after having transformed and
+                    # decoded the previous one): fit starts from scratch, so it behaves exactly like the fresh encoder
+                    if classes_mode == "none":
+                        key_ = (repr(s), name)
+                        try:
+                            sh = shared.get(key_)
+                            if sh is None:
+                                sh = shared[key_] = enc.ExtLabelEncoder(missing_label=s)
+                            sh.fit(arr)
+                            tr_s = [int(c) for c in np.asarray(sh.transform(arr)).ravel()]
+                            inv_s = [code2(v) for v in sh.inverse_transform(np.array(tr_s, dtype=int))]
+                            ctx.count("label_encoder_refitted")
+                            if tr_s != tr or inv_s != ycodes or list(sh.classes_) != list(le.classes_):
+                                ctx.violation("label_encoder", "refit_roundtrip", f"re-fitted encoder: transform={tr_s}, decoded={list(sh.inverse_transform(np.array(tr_s, dtype=int)))}; fresh encoder: transform={tr}",
+                                              {"vals": repr(vals), "sentinel": repr(s), "dtype": name, "classes": repr(classes), "history": "encoder fitted / used on other label arrays before"},
+                                              what="an ExtLabelEncoder that was fitted and used before does not round-trip after being re-fitted (differs from a fresh encoder)")
+                        except Exception as e:
+                            ctx.violation("label_encoder", "exception_refit", repr(e)[:200], {"vals": repr(vals), "sentinel": repr(s), "dtype": name, "classes": repr(classes)},
+                                          what=f"re-fitted ExtLabelEncoder raised {err_class(e)}")
                     # two-dimensional label arrays in every memory layout (C, Fortran, transposed / strided views): transform is
                     # element-wise and inverse_transform(transform(y)) reproduces y position by position; the encoded matrix fed to
                     # inverse_transform is itself re-laid-out independently (codes computed elsewhere arrive in any layout)
